@@ -4,7 +4,7 @@ TUS = ['c15.cc'] + BASE + ['features/continental_plate_models/grains/interface',
 ST = ['uniform_real_distribution<double>::operator() specialised to a fresh value u in [0,1) scaled to [a,b) (randomness = arbitrary value of its contract); the Mersenne Twister itself is outside',
       'sin/cos/sqrt uninterpreted with axioms sin^2+cos^2=1 (same argument), sqrt(x)=r: r>=0, r^2=x', 'Parameters API stub']
 def ob(id, entry, cases, expect, bounds, **kw):
-    d = dict(id=id, harness='c15.cc', entry=entry, mode='real', cases=cases, expect=expect, bounds=bounds, tus=TUS, stubs=ST, native=False, assumes=['exact-real reading'],
+    d = dict(id=id, harness='c15.cc', entry=entry, mode='real', cases=cases, expect=expect, bounds=bounds, tus=TUS, stubs=ST, native=True, assumes=['exact-real reading'],
              outside=['MT19937 (seeding, stream, "different seeds give different draws")', 'seeding in the World constructor / parse_entries (JSON)', 'the deflected variant and the other feature families (same code pattern, not instantiated here)'])
     d.update(kw); return d
 OBLIGATIONS = [
